@@ -99,6 +99,7 @@ def execute_once(engine, text, op_name, variables, plan, choice, scheduler="rand
     rt = Runtime(rid, loop, plan)
     rt.override = override
     rt.type_override = type_override
+    rt.scramble_args = bool(plan is not None and getattr(plan, "no_variables", False))
     loop.default_rt = rt
     ctx = ReqCtx(rt) if context is None else context
     out = Out()
@@ -171,7 +172,7 @@ class Req:
 
 
 def run_batch(engine, reqs, choice, scheduler="random", busy_pct=30, point_mode="gate", cancel=None,
-              stagger=True, shared=None, step_cap=200_000):
+              stagger=True, shared=None, step_cap=200_000, cancel_after_steps=None):
     """Run all requests concurrently as client tasks of one SimLoop.  cancel = index of the request
     a killer task cancels at a scheduler-chosen moment (fault: a client goes away)."""
     loop = SimLoop(choice, scheduler, busy_pct, point_mode, step_cap)
@@ -179,13 +180,19 @@ def run_batch(engine, reqs, choice, scheduler="random", busy_pct=30, point_mode=
     for r in reqs:
         r.rt = Runtime(r.rid, loop, r.plan)
         r.rt.shared = shared
+        r.rt.scramble_args = bool(r.plan is not None and getattr(r.plan, "no_variables", False))
         r.ctx = ReqCtx(r.rt)
     loop.default_rt = reqs[0].rt if reqs else None
+
+    started = {}
 
     async def client(r):
         try:
             if stagger:
                 await loop.gate(("client", r.rid))
+            fut = started.get(r.rid)
+            if fut is not None and not fut.done():
+                fut.set_result(None)
             r.resp = await engine.execute(r.text, operation_name=r.op_name, context=r.ctx,
                                           variables=copy.deepcopy(r.variables),
                                           initial_value=r.plan.root_value if r.plan is not None else None)
@@ -196,11 +203,19 @@ def run_batch(engine, reqs, choice, scheduler="random", busy_pct=30, point_mode=
             r.exc = e
 
     async def main():
+        if cancel is not None and cancel_after_steps is not None:
+            started[reqs[cancel].rid] = loop.create_future()
         tasks = [loop.create_task(client(r)) for r in reqs]
         killer = None
         if cancel is not None:
             async def kill():
-                await loop.gate(("killer",))
+                if cancel_after_steps is None:
+                    await loop.gate(("killer",))
+                else:
+                    # the client goes away a chosen number of event-loop iterations after its request began
+                    await started[reqs[cancel].rid]
+                    for _ in range(cancel_after_steps):
+                        await asyncio.sleep(0)
                 tasks[cancel].cancel()
             killer = loop.create_task(kill())
         await asyncio.gather(*tasks, return_exceptions=True)
